@@ -691,7 +691,19 @@ func fragDet(g *Gen, n int, o *Out) {
 				_ = k
 			}
 			tdatum := map[string]interface{}{"ml": ml, "mp": mp, "ms": ms, "mi": mi, "mb": mb, "mf": mf, "mn": mn, "mx": mx}
+			// the exact common shapes (a fast path for precisely map[string]string, map[string]int … would live here);
+			// their elements cannot fail on their own, so the erroring operand refers to something outside the map
+			xs, xi, xb, xf, xl := map[string]string{}, map[string]int{}, map[string]bool{}, map[string]float64{}, map[string][]string{}
+			for j, k := range keys {
+				xs[k], xi[k], xb[k], xf[k], xl[k] = []string{"x", "y", "z"}[j%3], j%3, j%2 == 0, float64(j%3), []string{[]string{"x", "y", "z"}[j%3]}
+			}
+			tdatum["xs"], tdatum["xi"], tdatum["xb"], tdatum["xf"], tdatum["xl"], tdatum["Port"] = xs, xi, xb, xf, xl, 8080
 			texts := []string{
+				fmt.Sprintf("%s xs as k, v { v == \"x\" or Port == \"http\" }", c.Op),
+				fmt.Sprintf("%s %s as k, v { v == 1 or Port == \"http\" }", c.Op, []string{"xi", "xf"}[g.r.Intn(2)]),
+				fmt.Sprintf("%s xb as k, v { v == true or Missing == 1 }", c.Op),
+				fmt.Sprintf("%s xl as k, v { \"x\" in v or Port == \"http\" }", c.Op),
+				fmt.Sprintf("%s xs as k { k == \"%s\" or Port == \"http\" }", c.Op, keys[len(keys)/2]),
 				fmt.Sprintf("%s mi as k, v { v == \"open\" }", c.Op),
 				fmt.Sprintf("%s %s as _, v { v == \"open\" }", c.Op, []string{"mb", "mf", "mn", "mx"}[g.r.Intn(4)]),
 				fmt.Sprintf("%s mi as k { k == 1 }", c.Op),
